@@ -45,8 +45,6 @@ def gen_config(rng, hint=None):
         c = dict(kind=kind, local=local, clock_period=clock, min_duration=mind, max_duration=maxd, mod_bandwidth=bw,
                  max_amp=pick(rng, [None, 10.0, 15.7, 60.0]), max_abs_detuning=pick(rng, [None, 20.0, 125.0]),
                  min_avg_amp=pick(rng, [0, 0, 0.4]), custom_phase_jump_time=pick(rng, [None, None, 0, 40]))
-        if c["max_amp"] is None:
-            c["max_abs_detuning"] = None   # (max_amp=None with a detuning limit hits the C12 device-docstring defect; exercised by the C12 check)
         if local:
             c.update(min_retarget_interval=pick(rng, [0, 50, 220, 13]), fixed_retarget_t=pick(rng, [0, 0, 10, 100]), max_targets=pick(rng, [None, 1, 2]))
         if bw is not None and kind == "rydberg" and rng.random() < 0.5:
@@ -362,20 +360,23 @@ def main(argv):
         (reproduced if any(f.get("known") == k["id"] for f in fs) else stale).append(k["id"])
     rng = random.Random(1000003 * seed + 17)
     budget = {"quick": 25.0, "thorough": 600.0}[tier]
-    if prop == "C16":
+    if prop in ("C16", "C12"):
         import c16
+        import c12
+        mod = c16 if prop == "C16" else c12
 
         def km(msg, kind, d):
             for k in known:
                 if k.get("concrete_pattern") and k["concrete_pattern"] in msg and (k.get("kinds") is None or kind in k["kinds"]) and (k.get("durations") is None or d in k["durations"]):
                     return k["id"]
             return None
-        failures, evals, distinct, samples = c16.run(rng, budget, km)
+        failures, evals, distinct, samples = mod.run(rng, budget, km)
         repro = sorted({f["known"] for f in failures if f.get("known")})
         out = dict(failures=[dict(prop=prop, clause="(witness of listed finding reproduces)", known=i, step=-1, op=None) for i in repro] + [f for f in failures if not f.get("known")][:12],
                    stale_findings=[k["id"] for k in known if k["id"] not in repro],
                    summary=dict(kind="bounded stand-in (never counted as proved)", evaluations=evals, distinct_nontrivial=distinct,
-                                rule="every waveform class x duration 1..40 exhaustively, then random durations up to 1000; parameters drawn from small boundary-biased sets; "
+                                rule=("generated VirtualDevices (dimensions, atom number, distances, radial distance, layout limits) x registers / layouts placed at, just inside and just outside each limit; "
+                                      "independent oracle recomputes acceptance and the culprit sets; device-aware constructors; channel-parameter grid for device construction") if prop == "C12" else "every waveform class x duration 1..40 exhaustively, then random durations up to 1000; parameters drawn from small boundary-biased sets; "
                                      "concrete contracts: sample count, finiteness, documented values, indexing/slicing against Python's own, change_duration, scaling, "
                                      "from_max_val, Pulse ranges, ArbitraryPhase reconstruction; distinct = distinct (class, duration)",
                                 bound=f"{budget}s wall; durations 1..40 exhaustive", samples=samples))
